@@ -230,7 +230,7 @@ def o3(ctx, rep):
             (e.cls == "ht" and e.kind in ("write", "resize"))
             or (e.cls == "seglog" and e.kind in ("unlink", "resize", "open", "write"))
             or (e.body.id in POST_ONLY_FUNCS)
-            or (e.cls == "meta" and e.body.id != META_WRITE)
+            or (e.cls == "meta" and e.body.id != META_WRITE and not any(c[0] == META_WRITE for c in it.chain))
         )
         if not post:
             continue
@@ -281,27 +281,30 @@ def reach_edges(ctx, ed):
 def o4(ctx, rep):
     body = ctx.facts.body(META_WRITE)
     m = ctx.model
-    evs = m.ev_by_body.get(body.id, [])
-    writes = [e for e in evs if e.kind == "write"]
-    syncs = [e for e in evs if e.kind == "sync"]
-    rep.check(len({e.site for e in writes}) == 1, "O4", "store::meta::Meta::write", "single-write", "Meta::write performs %d write sites (the switch-over must be one page write)" % len({e.site for e in writes}), site=body.span, detail="one write_all_at")
-    for e in writes[:1]:
-        t = body.term(e.bb)
+    fn = "store::meta::Meta::write"
+    items = dedup(m.items_at(body, "ret"))
+    W = [i for i in items if i.event.kind == "write"]
+    S = [i for i in items if i.event.kind == "sync" and not i.pend]
+    sites = {(i.event.body.id, i.event.site) for i in W}
+    rep.check(len(sites) == 1, "O4", fn, "single-write", "Meta::write performs %d write sites (the switch-over must be one page write)" % len(sites), site=body.span, detail="one write_all_at")
+    for w in W[:1]:
+        e = w.event
+        t = e.body.term(e.bb)
         off = t["args"][2] if len(t["args"]) > 2 else None
-        rep.check(off is not None and off["k"] == "const" and off.get("int") == "0", "O4", "store::meta::Meta::write", "offset-0", "the meta page is not written at constant offset 0", site=e.site, detail="write_all_at(page, 0)")
-        rep.check(m.ok_implied(body, e.bb), "O4", "store::meta::Meta::write", "write-checked", "the result of the meta page write is not checked", site=e.site, detail="`?`")
-        ok = False
-        for s in syncs:
-            g, _ = m.gate(body, s.bb, e.bb)
-            if g is not None and must_pass_flags(m, body, e.bb, g, "ret") and m.ok_implied(body, s.bb):
-                ok = True
-        rep.check(ok, "O4", "store::meta::Meta::write", "write-then-sync", "the meta page write is not followed by a result-checked fsync on every success path", site=e.site, detail="write_all_at -> sync_all, both `?`")
-        for s in syncs:
-            later = [w for w in writes if w.bb in body.reachable(body.succ(s.bb), body.ok_removed())]
-            rep.check(not later, "O4", "store::meta::Meta::write", "no-write-after-sync", "a write to the meta file follows its fsync", site=s.site, detail="nothing after sync_all")
+        rep.check(off is not None and off["k"] == "const" and off.get("int") == "0", "O4", fn, "offset-0", "the meta page is not written at constant offset 0", site=e.site, detail="write_all_at(page, 0)")
+        rep.check(m.ok_implied(e.body, e.bb), "O4", fn, "write-checked", "the result of the meta page write is not checked", site=e.site, detail="`?`")
+        ok, why = covered_by_sync(ctx, body, "ret", w, S)
+        rep.check(ok, "O4", fn, "write-then-sync", "the meta page write is not followed by a result-checked fsync on every success path: %s" % why, site=e.site, detail=why)
+        # nothing is written to the meta file after its fsync
+        for s_ in S:
+            k = lca(w, s_)
+            if k < len(w.chain) and k < len(s_.chain) and w.chain[k][0] == s_.chain[k][0]:
+                A = ctx.facts.bodies[w.chain[k][0]]
+                later = w.chain[k][2] in A.reachable(A.succ(s_.chain[k][2]), A.ok_removed())
+                rep.check(not later, "O4", fn, "no-write-after-sync", "a write to the meta file can follow its fsync", site=s_.event.site, detail="nothing after the fsync")
     callers = {c[0] for c in ctx.facts.callers().get(META_WRITE, [])}
     allowed = {SYNC, "nomt::store::create"}
-    rep.check(callers <= allowed and SYNC in callers, "O4", "store::meta::Meta::write", "callers", "Meta::write is called from %s (allowed: Sync::sync, store::create)" % sorted(callers - allowed), detail="callers = %s" % sorted(callers))
+    rep.check(callers <= allowed and SYNC in callers, "O4", fn, "callers", "Meta::write is called from %s (allowed: Sync::sync, store::create)" % sorted(callers - allowed), detail="callers = %s" % sorted(callers))
     return 6
 
 
